@@ -812,7 +812,11 @@ fn enumerate(case: &Case, b: &Built, mode: Mode, rep: &mut CaseReport, trace: &m
             "between-first-and-last-write"
         };
         let finding = if zone == "between-first-and-last-write" {
-            classify_finding(case.scenario, &b.target)
+            classify_finding(case.scenario, &b.target).filter(|key| {
+                // O32 is one precise hole (the wrapper id is recorded as processed before the
+                // welcome row exists); any other way of not recovering an interrupted join is not it
+                !key.starts_with("O32") || retry_note.contains("welcome record missing for processed welcome")
+            })
         } else if !b.prelude.is_empty() && zone != "after-the-last-write" && phase == "nothing-persisted" {
             // commit-with-rollback: the reopened instance has forgotten the timestamp of the
             // commit it had applied, so the better commit can no longer displace it (listed for
